@@ -47,4 +47,6 @@ for m in MUTANTS:
         subprocess.run(["git", "-C", "/repo", "checkout", "--", m["file"]], check=True)
         # replays written by mutant runs are not regression inputs
         subprocess.run(["rm", "-rf", os.path.join(ROOT, "replays")])
+known = {f'{m["prop"]}/{m["name"]}' for m in MUTANTS}
+results = {k: v for k, v in results.items() if k in known}
 json.dump(results, open(res_path, "w"), indent=1, sort_keys=True)
